@@ -1,0 +1,16 @@
+//go:build verif
+
+// Machine-checked contracts for govc (see /verif/DESIGN.md). Comments only;
+// compiled only with the build tag "verif".
+
+package cellib
+
+// C01: a condition that cannot be evaluated (runtime error of the CEL program) is passed through
+// unchanged; the "evaluated to false" marker (*EvalError) is produced only for a clean false.
+//@ func (*CompiledExpression).Eval
+//@   props C01
+//@   logged eval
+//@   ensures prg.n == old(prg.n) + 1
+//@   ensures prg.ret2[old(prg.n)] != nil ==> ret0 == prg.ret2[old(prg.n)]
+//@   ensures ret0 != nil && isEvalError(ret0) ==> prg.ret2[old(prg.n)] == nil
+//@   ensures ret0 == nil ==> prg.ret2[old(prg.n)] == nil
